@@ -204,3 +204,43 @@ def closing_rejection_target(make, max_steps=60000):
         return None
     g = cands[len(cands) // 2]
     return float(g[0]["t"] + 0.5 * (g[0]["h"] + g[-1]["h"]))
+
+
+def replay_steps(rec, info, f, t, y, rows, feats, rtol, atol, lipschitz, constants=None, clause="step_replay", mask=None):
+    """History-independence of the recorded steps: row k+1 must be what a FRESH integrator of the same class produces from row k with the
+    recorded step (explicit/splitting: to rounding; implicit: to the stage-solve tolerance).  Catches state carried into a step that does
+    not start where the previous call ended (roll-back at a terminal event, resume after a failure, reversal)."""
+    import desolver as de
+    from vf import util
+    dt_ = y.dtype
+    eps = max(eps_of(dt_), 2.3e-16)
+    rhs = de.DiffRHS(f)
+    bad = 0
+    for k in rows:
+        if k < 0 or k + 1 >= len(t):
+            continue
+        h = t[k + 1] - t[k]
+        kw = {}
+        if mask is not None and info["splitting"]:
+            kw["staggered_mask"] = mask
+        intg = info["cls"](np.shape(y[k]), dtype=dt_, rtol=rtol, atol=atol, **kw)
+        util.passthrough_adaptation(intg)
+        try:
+            _, (dT, dY) = intg(rhs, np.array(t[k], copy=True), np.array(y[k], copy=True), dict(constants or {}), np.array(h, copy=True))
+        except Exception as e:   # the reference step itself is not available (Newton failure at this step size): nothing to compare
+            rec.bump(clause + "_reference_unavailable")
+            continue
+        if abs(float(dT) - float(h)) > 64 * eps * max(1.0, abs(float(h))):
+            rec.bump(clause + "_reference_took_other_step")
+            continue
+        rec.bump(clause + "_steps")
+        ymax = float(np.max(np.abs(y[k])))
+        if info["explicit"]:
+            unit = 256 * eps * info["stages"] * (1 + ymax) * (1 + lipschitz * abs(float(h))) ** 2
+        else:
+            unit = 40 * (atol + rtol * ymax) + 256 * eps * (1 + ymax)
+        err = float(np.max(np.abs((np.asarray(y[k], dtype=np.longdouble) + np.asarray(dY, dtype=np.longdouble)) - np.asarray(y[k + 1], dtype=np.longdouble))))
+        rec.worst(clause + "_over_unit", err / unit)
+        if err > unit and bad < 2:
+            bad += 1
+            rec.violate(clause, "recorded_step_differs_from_fresh_integrator_step", feats, row=int(k), t=float(t[k]), h=float(h), err=err, unit=unit)
